@@ -99,3 +99,8 @@ def parent_parts(parts):
     if len(parts) == 0:
         return parts
     return parts[:-1]
+
+
+def same_tokens(a_parts, b_parts):
+    """Two pointers are equal exactly when their reference tokens (strings) are equal."""
+    return tokens(a_parts) == tokens(b_parts)
